@@ -366,10 +366,15 @@ def attrsEnd (src : List Char) : List Nat → Nat
   | [h] => lineOf src h
   | h :: r => max (lineOf src h) (attrsEnd src r)
 
-/-- visitor.rs:747-768 `push_skipped_with_span(attrs, item_span, main_span)`.
+/-- visitor.rs:747-772 `push_skipped_with_span(attrs, item_span, main_span)` (as of /repo ed625bc,
+"record skipped ranges in output line numbers").
 `attrHis` = `attr.span.hi()` of each attribute; `itemLo itemHi` = `item_span`; `mainLo` =
-`main_span.lo()`.  The recorded pair mixes coordinates (F2): `lo` is a line of the *source*,
-`hi` is `self.line_number + 1`, a line of *this visitor's buffer*. -/
+`main_span.lo()`.  The source-side `lo = min(attrs_end + 1, line_of(main_span.lo))` is turned into
+an offset from the item's first source line (`saturating_sub`, here truncated `Nat` subtraction)
+and added to `self.line_number + 1` read *after* `format_missing_with_indent` and *before* the
+copy; `hi` is `self.line_number + 1` after the copy.  Both are lines of *this visitor's buffer*
+(a nested visitor counts from 0 where it starts).  Before ed625bc `lo` was the source line itself
+(F2). -/
 def pushSkipped (src : List Char) (st : State) (attrHis : List Nat) (itemLo itemHi mainLo : Nat)
     (w : List Char) : Option State :=
   match formatMissingWithIndent src st itemLo w with
@@ -377,6 +382,8 @@ def pushSkipped (src : List Char) (st : State) (attrHis : List Nat) (itemLo item
   | some st1 =>
     let firstLine := lineOf src mainLo
     let lo := min (attrsEnd src attrHis + 1) firstLine
+    let itemFirstLine := lineOf src itemLo
+    let lo := st1.lineNumber + 1 + (lo - itemFirstLine)
     match pushRewriteInner src st1 itemLo itemHi none with
     | none => none
     | some st2 =>
